@@ -36,6 +36,7 @@ N_POINTS = 6
 def plan(tier, seed):
     units = [{"uid": f"cpp{i}", "kind": "cpp", "i": i} for i in range(N[tier]["cpp"])]
     units += [{"uid": f"probe{i}", "kind": "probe", "i": i} for i in range(4 if tier == "quick" else 40)]
+    units += [{"uid": "absprobe", "kind": "absprobe", "i": 0}]
     # value-only programs with angle-wrap idioms (asin(sin u) ...), CSE on vs off vs oracle
     units += [{"uid": f"wrap{i}", "kind": "wrap", "i": i, "wraps": True} for i in range(16 if tier == "quick" else 600)]
     units += [{"uid": f"py{i}", "kind": "py", "i": i} for i in range(N[tier]["py"])]
@@ -366,6 +367,12 @@ def _cpp(R, rng, ctx, i):
 def run_unit(unit, ctx):
     R = K.Result()
     rng = K.unit_rng(ID, ctx["seed"], unit)
+    if unit["kind"] == "absprobe":
+        # CSE on and off must agree: for Abs() of a symbol without the real assumption one is silently wrong
+        # and the other refuses to compile (known finding jacobian:abs-of-unassumed-symbol)
+        from .c03 import run_abs_probe
+
+        return run_abs_probe(unit, ctx)
     if unit["kind"] == "probe":
         from .c01 import run_probe
 
